@@ -23,6 +23,8 @@ fn fake_sendmail(dir: &Path, kind: &str) -> Option<PathBuf> {
         "fail" => "#!/bin/sh\nfor a in \"$@\"; do printf '%s\\0' \"$a\" >> \"$0.argv\"; done\ncat > \"$0.stdin\"\necho 'boom: rejected' >&2\nexit 3\n",
         // fail with a diagnostic that is not UTF-8
         "failbin" => "#!/bin/sh\ncat > /dev/null\nprintf '\\377\\376' >&2\nexit 4\n",
+        // read stdin, write a diagnostic, then die from a signal (no exit code at all)
+        "killed" => "#!/bin/sh\nfor a in \"$@\"; do printf '%s\\0' \"$a\" >> \"$0.argv\"; done\ncat > \"$0.stdin\"\necho 'killed: out of memory' >&2\nkill -9 $$\n",
         _ => return None,
     };
     std::fs::write(&p, body).ok()?;
